@@ -21,7 +21,8 @@ theorem C12_law (s : St) (i : Nat) (o : Op) (d : Nat) (ho : s.ops[i]? = some o) 
     (o.mail = .empty → s.now < d → step s (.poll i) = some (s, .res none)) ∧
     (o.mail = .empty → d ≤ s.now → s.drv = .running →
       step s (.poll i) = some ({ s with ops := s.ops.set i { o with res := some .timeout },
-                                        scrubQ := s.scrubQ ++ [o.id] }, .res (some .timeout))) := by
+                                        scrubQ := s.scrubQ ++ [o.id],
+                                        chans := dropRxOf s.chans o.chan }, .res (some .timeout))) := by
   refine ⟨?_, ?_, ?_⟩
   · intro f hm; simp [step, ho, hres, hph, hm]
   · intro hm hlt
